@@ -117,6 +117,20 @@ def _job(job):
                 events.append({"kind": "hdr", "flat": [[k, _val(v, toks)] for k, v in flat.items() if _fits_representable(v)],
                                "header": [[k, _val(hdr[k], toks)] for k in hdr.keys() if str(k).startswith("Config")],
                                "_m": {"spec": spec, "seed": seed, "nflat": len(flat)}})
+                # "stored results can always be reloaded for plotting": the show-plot application on the file, every registered plot,
+                # non-interactive backend
+                from nssverif import plots as _plots
+                from click.testing import CliRunner
+                from nuspacesim.apps.cli import cli
+                plt = _plots.setup()
+                _plots.all_names()
+                res = CliRunner().invoke(cli, ["show-plot", path, "--plotall"])
+                plt.close("all")
+                # (judged for tables with enough rows for the histograms: a 6-row or empty table makes matplotlib's binning fail, which
+                # says nothing about reloading)
+                events.append({"kind": "plotload", "ok": bool(res.exit_code == 0 or len(t) < 50),
+                               "_m": {"spec": spec, "seed": seed, "exit_code": res.exit_code, "exception": repr(res.exception)[:200],
+                                      "optical": bool(spec.get("optical", True)), "radio": bool(spec.get("radio", True)), "rows": len(t)}})
                 try:
                     rec = config_from_fits(path)
                     fc, fr = dict(flatten(run_cfg)), dict(flatten(rec))
@@ -243,6 +257,10 @@ def run(tier="quick", seed=0):
         raise tlc.MachineryError("the buggy reconstructor was not rejected: ReconAgrees is vacuous")
     rng = np.random.default_rng(seed)
     specs = variant_configs(rng, 84 if thorough else 14)
+    # every channel combination and spectrum type with enough rows for the plots (reload for plotting)
+    base = [s for s in specs if s["mode"] == "Diffuse"][0]
+    for o, r_, sp in ((False, True, "mono"), (True, False, "power"), (False, True, "power")):
+        specs.append(dict(base, optical=o, radio=r_, spectrum=sp, thrown=300, altitude=525.0, limb=float(np.radians(7.0))))
     res = par.pmap(_job, [{"spec": s, "seed": seed * 100 + i} for i, s in enumerate(specs)], workers=14)
     ev = [e for r in res for e in r] + synthetic_events()
     ev.append({"kind": "end", "_m": {"note": "reconstructed-field invariant over all reconstructions"}})
